@@ -519,6 +519,45 @@ pub fn bytes_zoo(f: &Fld, rng: &mut impl RngCore, nrand: usize) -> Vec<(Vec<u8>,
         v[n - 1] |= hi;
         z.push((v, "high-bit"));
     }
+    // long inputs for the reducers: beyond 256 bytes (2048 bits) and beyond any fixed internal buffer
+    for len in [255usize, 256, 257, 264, 272, 300, 384, 511, 512, 513, 1000, 1024, 1025, 4097] {
+        z.push((vec![0xabu8; len], "long"));
+        let mut v = rand_bytes(rng, len);
+        v[len - 1] |= 0x80;
+        z.push((v, "long"));
+        let mut one_hot = vec![0u8; len];
+        one_hot[len - 1] = 1;
+        z.push((one_hot, "long"));
+    }
+    // sparse long strings: aligned chunks that are zero or congruent to zero (k*p) between non-zero
+    // neighbours; chunk sizes = element size, half, double, 8 and 16 bytes
+    for chunk in [n, n / 2, 2 * n, 8, 16] {
+        for nchunks in [3usize, 4, 6] {
+            for zero_at in 1..nchunks - 1 {
+                for kind in 0..3u8 {
+                    let mut v: Vec<u8> = Vec::new();
+                    for ci in 0..nchunks {
+                        if ci == zero_at {
+                            match kind {
+                                0 => v.extend(vec![0u8; chunk]),
+                                1 if chunk >= n => { let mut cbytes = to_le(p, n); cbytes.resize(chunk, 0); v.extend(cbytes) }
+                                2 if chunk >= n && fits(&(p * b(3))) => { let mut cbytes = to_le(&(p * b(3)), n); cbytes.resize(chunk, 0); v.extend(cbytes) }
+                                _ => v.extend(vec![0u8; chunk]),
+                            }
+                        } else {
+                            let mut cbytes = vec![0u8; chunk];
+                            cbytes[0] = 3 + ci as u8;
+                            if ci % 2 == 1 {
+                                cbytes[chunk - 1] = 5;
+                            }
+                            v.extend(cbytes);
+                        }
+                    }
+                    z.push((v, "sparse-long"));
+                }
+            }
+        }
+    }
     for len in 0..=200usize {
         z.push((vec![0xabu8; len], "length"));
         if len <= 80 {
